@@ -254,6 +254,23 @@ pub fn run_avx2(ctx: &Ctx) {
                 let (fa, fb) = (Fe::from_limbs(&la), Fe::from_limbs(&lb));
                 let (va, vb) = (sp.value(&la), sp.value(&lb));
                 let case = json!({"kind": "avx2_new", "a": la, "b": lb});
+                // four pairwise different lanes through new -> split, all four compared limb-exactly where the
+                // element is already reduced, by value otherwise
+                {
+                    let lc = sp.vector(&lat, k, (idx * 17 + 3) % total);
+                    let ld: Vec<u64> = (0..sp.n).map(|i| 1000 + 10 * i as u64 + (idx as u64 % 7)).collect();
+                    let fs = [fa, fb, Fe::from_limbs(&lc), Fe::from_limbs(&ld)];
+                    let want = [va, vb, sp.value(&lc), sp.value(&ld)];
+                    match guarded(|| v::Fx4::new(&fs).split()) {
+                        Err(e) => report(ctx, "fx4.new_split", format!("panic: {}", e), case.clone()),
+                        Ok(s) => {
+                            let got: Vec<Fp> = s.iter().map(|f| sp.value(&f.limbs())).collect();
+                            if got != want.to_vec() {
+                                report(ctx, "fx4.new_split", "split(new(a, b, c, d)) != (a, b, c, d)".into(), case.clone());
+                            }
+                        }
+                    }
+                }
                 match guarded(|| (v::Fx4::new(&[fa, fb, fb, fa]).raw(), v::Fx4::splat(&fa).raw())) {
                     Err(e) => report(ctx, "fx4.new", format!("panic: {}", e), case),
                     Ok((o, s)) => {
@@ -428,14 +445,20 @@ pub fn run_ifma(ctx: &Ctx) {
                 ctx.eval(1);
                 let la = sp.vector(&lat, 3, idx);
                 let lb = sp.vector(&lat, 3, (idx * 31 + 7) % total);
-                let (fa, fb) = (Fe::from_limbs(&la), Fe::from_limbs(&lb));
-                let x = v::Ux4::new(&[fa, fb, fb, fa]);
-                let s = x.split();
-                if x.raw() != [[la[0], la[1], la[2], la[3], la[4]], [lb[0], lb[1], lb[2], lb[3], lb[4]], [lb[0], lb[1], lb[2], lb[3], lb[4]], [la[0], la[1], la[2], la[3], la[4]]]
-                    || s[0].limbs() != la
-                    || s[1].limbs() != lb
-                {
-                    report("ifma.new_split", "new/split do not preserve limbs".into(), json!({"kind": "ifma_new", "a": la, "b": lb}));
+                // four different lanes, and (second round) limbs tagged by lane and position, so that a lane or limb
+                // taken from the wrong place cannot coincide with the right one; all four outputs are compared
+                let lc = sp.vector(&lat, 3, (idx * 17 + 3) % total);
+                let ld = sp.vector(&lat, 3, (idx * 13 + 11) % total);
+                let tag = |lane: u64| -> Vec<u64> { (0..5u64).map(|i| (1u64 << 50) + 1000 * lane + 10 * i + (idx as u64 % 7)).collect() };
+                for lanes in [[la.clone(), lb.clone(), lc.clone(), ld.clone()], [tag(1), tag(2), tag(3), tag(4)]] {
+                    let f: Vec<Fe> = lanes.iter().map(|l| Fe::from_limbs(l)).collect();
+                    let x = v::Ux4::new(&[f[0], f[1], f[2], f[3]]);
+                    let s = x.split();
+                    let raw = x.raw();
+                    let ok = (0..4).all(|k| raw[k].to_vec() == lanes[k] && s[k].limbs() == lanes[k]);
+                    if !ok {
+                        report("ifma.new_split", "new/split do not preserve the limbs of every lane".into(), json!({"kind": "ifma_new", "lanes": lanes}));
+                    }
                 }
             }
         }
